@@ -1,5 +1,5 @@
 """Failing inputs for the genuine defects found by the static rules (triage evidence, never run by a check).
-usage: /venv/bin/python repro.py [ID ...]      (IDs: F-01 .. F-12, K-01 .. K-12)
+usage: /venv/bin/python repro.py [ID ...]      (IDs: F-01 .. F-12, K-01 .. K-13)
 Each function returns a short description of the observed misbehaviour or raises the observed exception."""
 import signal, sys, traceback
 import ciw
@@ -187,6 +187,22 @@ def K_12():  # C09  PSNode never increments number_in_service but every release 
     recs = Q.get_all_records()
     return "PS node number_in_service=%d; JSQ(order) sent %d to PS node 2, %d to node 3" % (Q.nodes[2].number_in_service,
         len([r for r in recs if r.node == 1 and r.destination == 2]), len([r for r in recs if r.node == 1 and r.destination == 3]))
+
+def K_13():  # C07/C14  a blocked customer is chosen as pre-emption victim: later AttributeError / ValueError
+    out = []
+    for opt in ("resample", "restart", "resume", "reroute"):
+        bad, first = 0, None
+        for seed in range(10):
+            N = ciw.create_network(arrival_distributions={'A': [E(2.0), None], 'B': [E(2.0), None]},
+                service_distributions={'A': [E(3.0), E(1.0)], 'B': [E(3.0), E(1.0)]},
+                routing={'A': [[0.0, 1.0], [0.0, 0.0]], 'B': [[0.0, 1.0], [0.0, 0.0]]},
+                number_of_servers=[2, 1], queue_capacities=[inf, 1], priority_classes=({'A': 0, 'B': 1}, [opt, False]))
+            ciw.seed(seed)
+            try: ciw.Simulation(N).simulate_until_max_time(300)
+            except Exception as e:
+                bad += 1; first = first or "%s: %s" % (type(e).__name__, e)
+        out.append("%s: %d/10 runs crash (%s)" % (opt, bad, first))
+    return out
 
 ALL = {k.replace("_", "-"): v for k, v in list(globals().items()) if k[:2] in ("F_", "K_")}
 if __name__ == "__main__":
